@@ -1,12 +1,12 @@
 /-
-Props/Defects.lean — the defects D1–D5 and D8 of the pinned tree (DESIGN.md 0.4, section 9), each
+Props/Defects.lean — the defects D1–D6 and D8 of the pinned tree (DESIGN.md 0.4, section 9), each
 as a kernel-checked statement about Model/Legacy.lean, which bin/libgen GENERATES from the pre-fix
 revision of lib.rs (commit cd70602), next to the same call on Model/GenLib.lean, generated from the
 repaired source.  `none` is a panic.  Nothing here is assumed: every statement is closed and decided
 by evaluation in the kernel.
 
-(D6, `Display` with a negative year, and D7, `system2jdn` before the epoch, live in functions the
-translator does not read; they are pinned by corpus witnesses only.)
+(D7, `system2jdn` before the epoch, lives in a function the translator does not read; it is pinned
+by corpus witnesses only.)
 -/
 import JulianVerif.Model.Legacy
 import JulianVerif.Model.GenLib
@@ -74,6 +74,13 @@ require `InvalidReformation`.  Repaired. -/
 theorem D8 :
     Legacy.calendarReforming (-2147483647) = some (.error .arithmetic)
     ∧ Gen.calendarReforming (-2147483647) = some (.error .invalidReformation) := by
+  decide +kernel
+
+/-- **D6** `Display for Date` pads a negative year with `{:04}`, which counts the sign: year −1
+prints as `-001-01-01`.  Repaired: `-0001-01-01`. -/
+theorem D6 :
+    Legacy.dateFmt ⟨.julian, -1, 1, .january, 1, 1, 1720693⟩ false = "-001-01-01".toList
+    ∧ Gen.dateFmt ⟨.julian, -1, 1, .january, 1, 1, 1720693⟩ false = "-0001-01-01".toList := by
   decide +kernel
 
 end JV.Defects
